@@ -70,7 +70,9 @@ func core(r *vk.Run) {
 		isValue := rng.Bool()
 		var val *resource.Value
 		var col *resource.Collection
-		if isValue {
+		if isValue && rng.Chance(1, 3) {
+			val = resource.NewValue(resource.WithClock(&clk{})) // no initial value: the first Set creates the register's content
+		} else if isValue {
 			val = resource.NewValue(resource.WithClock(&clk{}), resource.WithInitialValue(vk.GenMessage(rng, &tat{}, gen)))
 		} else {
 			col = resource.NewCollection(resource.WithClock(&clk{}), resource.WithInitialRecord("a", vk.GenMessage(rng, &tat{}, gen)))
